@@ -274,6 +274,7 @@ __CPROVER_ensures((p) == NULL || (p)->tracked == NULL || (p)->tracked->type != J
 #define EMPTY_OBJ(p) (__CPROVER_is_fresh(p, sizeof(json_t)) && (p)->type == JSON_OBJECT && (p)->refcount == 1 && (p)->tracked == NULL)
 #define TRACKING_ALG KEY3(g_json_key, 'a', 'l', 'g')
 
+#define COMMA ,
 #ifdef VERIF_TU_JWT_VERIFY
 json_t *contract_jwt_base64uri_decode_to_json(char *src)
 __CPROVER_requires(src != NULL && __CPROVER_r_ok(src, 1))
@@ -331,6 +332,60 @@ SPEC_ERR_MONOTONE(jwt) \
 CLAUSES
 DECL_jwt_parse_payload(contract_C14_jwt_parse_payload, C14_PH_CLAUSES);
 DECL_jwt_parse_payload(contract_all_jwt_parse_payload, C14_PH_CLAUSES);
+
+/* jwt_parse: copy the token once, split the copy at the first two dots, parse header and
+ * payload.  (C06, C14, C02 clauses; this is the contract stubs/verify_top.c's abstract body
+ * mirrors.)  "for every index k" facts use the ghost index g_str_k (stubs/libc.c), chosen
+ * arbitrarily before the call: the clause holds for that k, hence for all. */
+/* What jwt_parse needs to know about its two callees (both are verified against their full
+ * contracts above by their own units; the full contracts' fresh-document clauses make the
+ * jwt_parse unit intractable in replace mode, so the calls are RECORDED instead: which
+ * argument, how often, with what result). */
+extern unsigned g_ph_calls, g_pp_calls; extern int g_ph_ret, g_pp_ret; extern const char *g_ph_arg, *g_pp_arg;
+#define DECL_parse_rec(NAME, ARGNAME, CALLS, RET, ARG, EXTRA_ASSIGNS, EXTRA) \
+int NAME(jwt_t *jwt, char *ARGNAME) \
+__CPROVER_requires(__CPROVER_rw_ok(jwt, sizeof(*jwt))) \
+__CPROVER_requires(ARGNAME != NULL && __CPROVER_r_ok(ARGNAME, 1)) \
+__CPROVER_requires(g_vj_len_c < 0x1000000 && KEY_IS_NAME3) \
+__CPROVER_requires(SPEC_ERRMSG_TERMINATED(jwt)) \
+__CPROVER_assigns(EXTRA_ASSIGNS, jwt->error, SPEC_ERRMSG_FRAME(jwt), JSON_LOAD_GHOSTS, CALLS, RET, ARG) \
+__CPROVER_ensures(__CPROVER_return_value == 0 || __CPROVER_return_value == 1) \
+__CPROVER_ensures(CALLS == __CPROVER_old(CALLS) + 1 && RET == __CPROVER_return_value && ARG == ARGNAME) \
+__CPROVER_ensures(SPEC_ERRMSG_TERMINATED(jwt)) \
+SPEC_ERR_MONOTONE(jwt) \
+C14_PH_CLAUSES \
+EXTRA
+DECL_parse_rec(contract_rec_jwt_parse_head, head, g_ph_calls, g_ph_ret, g_ph_arg, jwt->headers COMMA jwt->alg,
+	__CPROVER_ensures(__CPROVER_return_value == 0 ==> (jwt->headers != NULL && SPEC_ALG_KNOWN(jwt->alg))));
+DECL_parse_rec(contract_rec_jwt_parse_payload, payload, g_pp_calls, g_pp_ret, g_pp_arg, jwt->claims,
+	__CPROVER_ensures(__CPROVER_return_value == 0 ==> jwt->claims != NULL));
+
+int contract_all_jwt_parse(jwt_t *jwt, const char *token, unsigned int *len)
+__CPROVER_requires(__CPROVER_is_fresh(jwt, sizeof(*jwt)))
+__CPROVER_requires(token != NULL && __CPROVER_r_ok(token, 1))
+__CPROVER_requires(__CPROVER_is_fresh(len, sizeof(*len)))
+__CPROVER_requires(g_vj_len_c < 0x1000000 && KEY_IS_NAME3)
+__CPROVER_requires(SPEC_ERRMSG_TERMINATED(jwt))
+__CPROVER_requires(g_ph_calls == 0 && g_pp_calls == 0)
+__CPROVER_assigns(*len, jwt->headers, jwt->claims, jwt->alg, jwt->error, SPEC_ERRMSG_FRAME(jwt), JSON_LOAD_GHOSTS, g_last_strlen,
+		  g_ph_calls, g_ph_ret, g_ph_arg, g_pp_calls, g_pp_ret, g_pp_arg)
+__CPROVER_ensures(__CPROVER_return_value == 0 || __CPROVER_return_value == 1)
+/* C14 */
+__CPROVER_ensures(__CPROVER_return_value != 0 ==> (jwt->error == 1 && jwt->error_msg[0] != 0))
+__CPROVER_ensures(__CPROVER_return_value == 0 ==> jwt->error == __CPROVER_old(jwt->error))
+__CPROVER_ensures(SPEC_ERRMSG_TERMINATED(jwt))
+SPEC_ERR_MONOTONE(jwt)
+/* C06/C02: success only after jwt_parse_head and jwt_parse_payload each ran once and succeeded
+ * (their contracts: header is an object naming a known algorithm exactly; payload is a document) */
+__CPROVER_ensures(__CPROVER_return_value == 0 ==> (g_ph_calls == 1 && g_ph_ret == 0 && g_pp_calls == 1 && g_pp_ret == 0 &&
+	jwt->headers != NULL && SPEC_ALG_KNOWN(jwt->alg) && jwt->claims != NULL))
+/* the payload text handed on starts right after the first dot of the copy, and the header text at its start */
+__CPROVER_ensures(__CPROVER_return_value == 0 ==> (__CPROVER_same_object(g_ph_arg, g_pp_arg) && g_pp_arg > g_ph_arg && g_pp_arg - g_ph_arg <= (long)*len))
+/* C06/C01: the split point is a dot of the caller's token, not its first character, and the
+ * signature part after it lies inside the token */
+__CPROVER_ensures(__CPROVER_return_value == 0 ==> (*len >= 1 && __CPROVER_r_ok(token, (size_t)*len + 2)))
+__CPROVER_ensures((__CPROVER_return_value == 0 && (size_t)*len == g_str_k) ==> token[g_str_k] == '.')
+;
 #endif
 
 #endif
